@@ -36,6 +36,10 @@ ASSUMPTIONS = ["retry applies to Exception subclasses only (create_retry's docum
 @st.composite
 def width_cases(draw):
     m = draw(st.integers(1, 6))
+    big = draw(st.integers(0, 15)) == 0
+    if big:
+        # widths beyond the usual pool sizes (33-80 workers, as many independent calls): nothing documents a cap
+        m = draw(st.integers(33, 80))
     use_reg = draw(st.booleans())
     nodes = []
     # a small tree of non-blocking set-up calls; each rendezvous call hangs off one of them (or none), so
@@ -59,14 +63,14 @@ def width_cases(draw):
     extra = draw(st.integers(0, 4))
     for _ in range(extra):
         g.add_call()
-    w = draw(st.sampled_from(list(range(1, m + 4))))
+    w = draw(st.sampled_from(list(range(1, m + 4)))) if not big else draw(st.integers(33, m + 3))
     cfg = {"workers": w, "scheduler": draw(st.sampled_from(["default", "random", None])), "rseed": draw(st.integers(0, 999))}
     if use_reg and draw(st.booleans()):
         # mostly below max_workers: that is where the separate limit is observable
         cfg["stale_workers"] = draw(st.integers(1, max(1, w - 1))) if draw(st.integers(0, 3)) else draw(st.integers(1, 4))
     spec = {"nodes": g.nodes, "output": common.all_refs_output({"nodes": g.nodes})}
     return {"fam": "width", "spec": spec, "cfg": cfg, "m": m, "registry": use_reg,
-            "sched": draw(harness.schedules(real_share=10))}
+            "sched": draw(harness.schedules(real_share=10, det_only=big))}
 
 
 @st.composite
@@ -86,7 +90,7 @@ def maxerr_cases(draw, max_nodes):
 @st.composite
 def retry_cases(draw, max_nodes):
     use_reg = draw(st.booleans())
-    g = specs.Gen(draw, registry=use_reg, opaque=False, flaky=True)
+    g = specs.Gen(draw, registry=use_reg, opaque=False, flaky=True, exotic=draw(st.booleans()))
     n = draw(st.integers(2, max_nodes))
     while len(g.nodes) < n:
         g.add_any()
@@ -158,7 +162,7 @@ def check_width(ctx, case, record):
     case2 = dict(case, sched=harness.with_trace(sc, out))
     if record:
         depths = {len(specs.strict_ancestors(spec, i)) for i, nd in enumerate(spec["nodes"]) if nd.get("latch")}
-        ctx.case(case, wk >= 2 and m >= wk, common.sched_classes(case, out) + ["fam:width", f"target:{target}"]
+        ctx.case(case, wk >= 2 and m >= wk, common.sched_classes(case, out) + ["fam:width", f"target:{target}" if target <= 8 else "target:33+"]
                  + (["rendezvous_at_several_depths"] if len(depths) > 1 else []))
     if holder.get("l") is not None and holder["l"].timed_out:
         raise runner.Inconclusive("real-thread latch did not open within 8 s")
